@@ -6,6 +6,8 @@ from .c01 import AEAD_MODES, AEAD_ALGS, AEAD_TOK
 
 def run(chk):
     P = cf.Program()
+    import re as _re
+    from . import clones
     chk.explanation = ('NOT decided: equality of ciphertext/tag with the AEAD specifications. Decided: in every variant, for GCM, GCM-SGL, '
                        'CCM, ChaCha20-Poly1305(-SGL), SNOW-V-AEAD, SM4-GCM, DOCSIS-BPI and PON, both table halves dispatch the accepted '
                        '(mode, key size) to kernels of that mode, key size and direction; the paired hash algorithms dispatch to their own '
@@ -13,3 +15,4 @@ def run(chk):
     inits.rule_bindings(chk, P, 'B1', select=lambda k, v: bool(AEAD_TOK.search(k)), floor=150)
     c06.run(chk, mode_filter=lambda m: m in AEAD_MODES or m == 'IMB_CIPHER_DOCSIS_SEC_BPI', alg_filter=lambda a: a in AEAD_ALGS,
             only_cells=True, ids=('B2', 'B2h', 'B2o'))
+    clones.rule_clones(chk, 'N1', select=lambda s: bool(_re.search(r'gcm|ccm|pon|docsis', s)), floor=20)
